@@ -218,9 +218,18 @@ def check_summaries(ctx: Ctx):
         ctx.decide("R20.6", f, f.node, f"{f.qual}:repeatable", "a summary requested after other queries is unchanged", reducer_verdict("AVG", fields["avg"], (1.0, 3.0, 8.0)), {"got": repr(fields["avg"])})
 
 
+def _run_rule(ctx, name, fn):
+    """a sub-rule that cannot be evaluated is recorded as undecided; the remaining rules still run"""
+    try:
+        return fn(ctx)
+    except (Undecided, AnchorMissing) as e:
+        ctx.undecided(name, None, None, f"{name}:analysis", f"{type(e).__name__}: {e}")
+        return 0
+
+
 def check(ctx: Ctx):
-    check_summaries(ctx)
-    c18.check_roundtrip(ctx)  # R20.5 = R18.4: non-finite / missing cells become missing at load time
+    _run_rule(ctx, "check_summaries", check_summaries)
+    _run_rule(ctx, "check_roundtrip", c18.check_roundtrip)  # R20.5 = R18.4: non-finite / missing cells become missing at load time
     # "the recorded values": a statistic is made from the file as it is now - the aggregator keeps
     # no parsed copy between calls (other processes append rows it would never see, R15.6)
     from . import c03, c15
